@@ -14,6 +14,7 @@ package c04
 import (
 	"bufio"
 	"bytes"
+	"context"
 	"crypto/sha256"
 	"encoding/hex"
 	"encoding/json"
@@ -24,6 +25,7 @@ import (
 	"net/url"
 	"os"
 	"path/filepath"
+	"regexp"
 	goruntime "runtime"
 	"sort"
 	"strconv"
@@ -142,6 +144,7 @@ type Case struct {
 	Procs int
 	Yield bool   // the server is built in debug mode with a logger that yields the processor at every log call
 	Via   string // "" | http: over the wire to the httptest.Server; inproc: served in the calling goroutine
+	Gate  int    // > 1: requests rendezvous in groups of Gate right after they are bound (middleware.VerifHook, stage "bound")
 	Batch Batch
 }
 
@@ -200,8 +203,8 @@ func (c Case) JSON() M {
 	if c.Batch.Count > 0 {
 		steps = []M{} // derived from the batch description
 	}
-	return M{"api": M{"base": c.API.Base, "ops": ops}, "shared": c.Shared, "steps": steps, "bstatic": kvJSON(c.BaseStatic), "reuse": c.Reuse,
-		"conc": c.Conc, "procs": c.Procs, "yield": c.Yield, "via": c.Via, "batch": M{"op": c.Batch.Op, "count": c.Batch.Count, "seed": c.Batch.Seed}}
+	return M{"kind": "session", "api": M{"base": c.API.Base, "ops": ops}, "shared": c.Shared, "steps": steps, "bstatic": kvJSON(c.BaseStatic), "reuse": c.Reuse,
+		"conc": c.Conc, "procs": c.Procs, "yield": c.Yield, "via": c.Via, "gate": c.Gate, "batch": M{"op": c.Batch.Op, "count": c.Batch.Count, "seed": c.Batch.Seed}}
 }
 
 func caseFrom(d M) Case {
@@ -258,7 +261,7 @@ func caseFrom(d M) Case {
 		c.Steps = append(c.Steps, st)
 	}
 	c.BaseStatic, c.Reuse = kvFrom(d["bstatic"]), drv.Bool(d["reuse"])
-	c.Conc, c.Procs, c.Yield, c.Via = drv.Int(d["conc"]), drv.Int(d["procs"]), drv.Bool(d["yield"]), drv.Str(d["via"])
+	c.Conc, c.Procs, c.Yield, c.Via, c.Gate = drv.Int(d["conc"]), drv.Int(d["procs"]), drv.Bool(d["yield"]), drv.Str(d["via"]), drv.Int(d["gate"])
 	if b := drv.Map(d["batch"]); b != nil {
 		c.Batch = Batch{Op: drv.Str(b["op"]), Count: drv.Int(b["count"]), Seed: drv.Int(b["seed"])}
 	}
@@ -356,6 +359,7 @@ type exchange struct {
 	mu        sync.Mutex
 	idx       int
 	step      *Step
+	invoked   int // handler invocations filed under this call
 	handledOp string
 	received  []M
 	handler   M
@@ -367,50 +371,62 @@ func newExchange(idx int, st *Step) *exchange {
 	return &exchange{idx: idx, step: st, handler: M{"code": 0, "hdrs": []M{}, "body": ""}}
 }
 
-// Calls made one after the other are observed through `seq`.  Concurrent calls are kept apart by goroutine: the client
-// side registers the call of the submitting goroutine (clientSlots), the tagging transport writes its number into the
-// request (header X-C04-Call), the server's outermost handler maps the serving goroutine to that call (serverSlots) and
-// the operation handler, which gets no request, finds it there.
+// Calls made one after the other are observed through `seq`.  Concurrent calls (batches) are kept apart by their NUMBER:
+// the client side puts it into the operation's context, the tagging transport writes it into the request (header
+// X-C04-Call) for the server's outermost handler; the operation handler, which gets no request, reads it off the values it
+// was invoked with - every value of a batch call ends in "<seed>-<number>" - so that an invocation is filed under the call
+// whose values it carries (a call whose values go to nobody, or twice, shows as such).
 var (
 	seqMu       sync.Mutex
 	seq         = newExchange(0, &Step{})
-	clientSlots sync.Map // goroutine id -> *exchange
-	serverSlots sync.Map // goroutine id -> *exchange
+	batchActive atomic.Bool
 	batchCalls  sync.Map // call number -> *exchange (of the running concurrent batch)
 )
 
 const callHeader = "X-C04-Call"
 
-func observed() *exchange {
-	if x, ok := serverSlots.Load(gid()); ok {
-		return x.(*exchange)
-	}
+type callKey struct{}
+
+func sequential() *exchange {
 	seqMu.Lock()
 	defer seqMu.Unlock()
 	return seq
 }
 
-// gid returns the id of the calling goroutine (first line of its stack trace: "goroutine 123 [running]:").
-func gid() int64 {
-	var buf [64]byte
-	b := buf[:goruntime.Stack(buf[:], false)]
-	var id int64
-	for _, ch := range b[len("goroutine "):] {
-		if ch < '0' || ch > '9' {
-			break
-		}
-		id = id*10 + int64(ch-'0')
+var tagRE = regexp.MustCompile(`[0-9]+-([0-9]+)$`)
+
+// observed returns the record of the call a handler invocation belongs to.
+func observed(params map[string]interface{}) *exchange {
+	if !batchActive.Load() {
+		return sequential()
 	}
-	return id
+	for _, v := range params {
+		var text string
+		switch x := v.(type) {
+		case string:
+			text = x
+		case []string:
+			if len(x) > 0 {
+				text = x[0]
+			}
+		}
+		if m := tagRE.FindStringSubmatch(text); m != nil {
+			n, _ := strconv.Atoi(m[1])
+			if x, ok := batchCalls.Load(n + 1); ok {
+				return x.(*exchange)
+			}
+		}
+	}
+	return newExchange(0, &Step{Resp: Resp{Mode: "responder", Code: 500}}) // values of no call of the batch
 }
 
 // tagTransport marks the requests of concurrent calls with their call number.
 type tagTransport struct{ base http.RoundTripper }
 
 func (t tagTransport) RoundTrip(req *http.Request) (*http.Response, error) {
-	if x, ok := clientSlots.Load(gid()); ok {
+	if n, ok := req.Context().Value(callKey{}).(int); ok {
 		req = req.Clone(req.Context())
-		req.Header.Set(callHeader, strconv.Itoa(x.(*exchange).idx))
+		req.Header.Set(callHeader, strconv.Itoa(n))
 	}
 	return t.base.RoundTrip(req)
 }
@@ -437,6 +453,53 @@ func (inproc) RoundTrip(req *http.Request) (*http.Response, error) {
 	resp := rec.Result()
 	resp.Request = req
 	return resp, nil
+}
+
+// gate is a rendezvous of n goroutines: arrivals wait (spinning, yielding now and then) until the group is full - or a short
+// time has passed - and then all spin on the clock until a common instant shortly after, so that the group goes on within a
+// few nanoseconds.  A scheduling aid only: whoever passes, and when, has no influence on what is observed.
+type gate struct {
+	n   int64
+	cur atomic.Pointer[gateGroup]
+}
+
+type gateGroup struct {
+	cnt int64
+	at  int64 // the instant the group goes on (0: not full yet)
+}
+
+var gateEpoch = time.Now()
+
+func nanos() int64 { return int64(time.Since(gateEpoch)) }
+
+func newGate(n int) *gate {
+	g := &gate{n: int64(n)}
+	g.cur.Store(&gateGroup{})
+	return g
+}
+
+func (g *gate) wait() {
+	grp := g.cur.Load()
+	k := atomic.AddInt64(&grp.cnt, 1)
+	switch {
+	case k > g.n:
+		return
+	case k == g.n:
+		g.cur.Store(&gateGroup{})
+		atomic.StoreInt64(&grp.at, nanos()+30_000)
+	default:
+		giveUp := nanos() + 400_000
+		for i := 0; atomic.LoadInt64(&grp.at) == 0; i++ {
+			if i%32 == 31 {
+				if nanos() > giveUp {
+					return // nobody came: go on alone
+				}
+				goruntime.Gosched()
+			}
+		}
+	}
+	for at := atomic.LoadInt64(&grp.at); nanos() < at; {
+	}
 }
 
 var wireTransport = &http.Transport{MaxIdleConns: 512, MaxIdleConnsPerHost: 256}
@@ -655,8 +718,9 @@ func buildFresh(a API, raw []byte) (*built, error) {
 			for _, k := range names {
 				rec = append(rec, M{"name": k, "vs": render(m[k])})
 			}
-			cur := observed()
+			cur := observed(m)
 			cur.mu.Lock()
+			cur.invoked++
 			cur.handledOp, cur.received = o.ID, rec
 			r := cur.step.Resp
 			cur.mu.Unlock()
@@ -687,16 +751,14 @@ func buildFresh(a API, raw []byte) (*built, error) {
 	}
 	inner := middleware.Serve(ld, api)
 	b := &built{handler: http.HandlerFunc(func(w http.ResponseWriter, r *http.Request) {
-		if tag := r.Header.Get(callHeader); tag != "" { // a call of a concurrent batch: this goroutine serves it
+		cur := sequential()
+		if tag := r.Header.Get(callHeader); tag != "" { // a call of a concurrent batch
 			if n, err := strconv.Atoi(tag); err == nil {
 				if x, ok := batchCalls.Load(n); ok {
-					g := gid()
-					serverSlots.Store(g, x)
-					defer serverSlots.Delete(g)
+					cur = x.(*exchange)
 				}
 			}
 		}
-		cur := observed()
 		cur.mu.Lock()
 		cur.wirePath, cur.wireQuery = r.URL.EscapedPath(), r.URL.RawQuery
 		cur.mu.Unlock()
@@ -893,7 +955,7 @@ func execute(c *drv.Ctx, d M) bool {
 	cs := caseFrom(d)
 	noEvent := func(i int, st Step) {
 		c.W.Event("exchange", M{"step": i + 1, "op": st.Op, "media": mediaName(st.Media), "supplied": []M{}, "setup": false, "err": true, "handled_op": "", "received": []M{},
-			"handler": M{"code": 0, "hdrs": []M{}, "body": ""}, "seen": M{"code": 0, "hdrs": []M{}, "body": ""}, "wire_path": []int{}, "wire_query": []int{}, "err_text": []int{}})
+			"handler": M{"code": 0, "hdrs": []M{}, "body": ""}, "seen": M{"code": 0, "hdrs": []M{}, "body": ""}, "wire_path": []int{}, "wire_query": []int{}, "err_text": []int{}, "invoked": 0})
 	}
 	concurrent := cs.Conc > 1
 	if concurrent && cs.Yield {
@@ -937,6 +999,7 @@ func execute(c *drv.Ctx, d M) bool {
 	if cs.Reuse {
 		rt.EnableConnectionReuse()
 	}
+	rt.Debug = false // (client.New reads it from the environment)
 	ops := map[string]*Op{}
 	for j := range cs.API.Ops {
 		ops[cs.API.Ops[j].ID] = &cs.API.Ops[j]
@@ -954,7 +1017,7 @@ func execute(c *drv.Ctx, d M) bool {
 			seqMu.Lock()
 			seq = x
 			seqMu.Unlock()
-			ev, ok := exchangeOnce(rt, x, op)
+			ev, ok := exchangeOnce(rt, x, op, false)
 			c.W.Event("exchange", ev)
 			if ok {
 				nontrivial = true
@@ -967,11 +1030,22 @@ func execute(c *drv.Ctx, d M) bool {
 	if cs.Procs > 0 {
 		defer goruntime.GOMAXPROCS(goruntime.GOMAXPROCS(cs.Procs))
 	}
+	if cs.Gate > 1 {
+		g := newGate(cs.Gate)
+		middleware.VerifHook = func(stage string, _ *http.Request, _ ...any) {
+			if stage == "bound" {
+				g.wait()
+			}
+		}
+		defer func() { middleware.VerifHook = nil }()
+	}
 	evs := make([]M, len(cs.Steps))
 	oks := make([]bool, len(cs.Steps))
 	for i := range cs.Steps {
 		batchCalls.Store(i+1, newExchange(i+1, &cs.Steps[i]))
 	}
+	batchActive.Store(true)
+	defer batchActive.Store(false)
 	var next int64 = -1
 	var wg sync.WaitGroup
 	start := make(chan struct{})
@@ -979,7 +1053,6 @@ func execute(c *drv.Ctx, d M) bool {
 		wg.Add(1)
 		go func() {
 			defer wg.Done()
-			g := gid()
 			<-start
 			for {
 				i := int(atomic.AddInt64(&next, 1))
@@ -992,9 +1065,7 @@ func execute(c *drv.Ctx, d M) bool {
 				if op == nil {
 					continue
 				}
-				clientSlots.Store(g, x)
-				evs[i], oks[i] = exchangeOnce(rt, x, op)
-				clientSlots.Delete(g)
+				evs[i], oks[i] = exchangeOnce(rt, x, op, true)
 			}
 		}()
 	}
@@ -1015,7 +1086,7 @@ func execute(c *drv.Ctx, d M) bool {
 }
 
 // exchangeOnce makes the call x.step of operation op through rt and returns its event.
-func exchangeOnce(rt *client.Runtime, cur *exchange, op *Op) (M, bool) {
+func exchangeOnce(rt *client.Runtime, cur *exchange, op *Op, concurrent bool) (M, bool) {
 	st, idx := cur.step, cur.idx-1
 
 	params := map[string]Param{}
@@ -1138,11 +1209,14 @@ func exchangeOnce(rt *client.Runtime, cur *exchange, op *Op) (M, bool) {
 		seen = M{"code": resp.Code(), "hdrs": hs, "body": sha(canon)}
 		return nil, nil
 	})
-	if rt.Debug != st.Debug {
+	if !concurrent {
 		rt.Debug = st.Debug
 	}
 	cop := &runtime.ClientOperation{ID: op.ID, Method: op.Method, PathPattern: op.path() + staticQuery(st.PatStatic), ProducesMediaTypes: op.Produces,
 		ConsumesMediaTypes: []string{st.Media}, Params: writer, Reader: reader}
+	if concurrent {
+		cop.Context = context.WithValue(context.Background(), callKey{}, cur.idx)
+	}
 	switch st.Auth {
 	case "apikey":
 		cop.AuthInfo = client.APIKeyAuth("X-Token", "header", secret)
@@ -1159,7 +1233,7 @@ func exchangeOnce(rt *client.Runtime, cur *exchange, op *Op) (M, bool) {
 		_, callErr = rt.Submit(cop)
 	}()
 	cur.mu.Lock()
-	ev := M{"step": idx + 1, "op": st.Op, "media": mediaName(st.Media), "supplied": supplied, "setup": true, "err": callErr != nil, "handled_op": cur.handledOp, "received": cur.received,
+	ev := M{"step": idx + 1, "op": st.Op, "media": mediaName(st.Media), "supplied": supplied, "setup": true, "err": callErr != nil, "handled_op": cur.handledOp, "received": cur.received, "invoked": cur.invoked,
 		"handler": cur.handler, "seen": seen, "wire_path": trace.B(cur.wirePath), "wire_query": trace.B(cur.wireQuery), "err_text": trace.B(errText(callErr))}
 	cur.mu.Unlock()
 	if ev["received"] == nil || len(ev["received"].([]M)) == 0 {
